@@ -105,7 +105,10 @@ func (p *Parser) parseHeader(data []byte) (header *parser.PacketHeader, buf []by
 		}
 
 		header.Namespace = string(data[:i])
-		data = data[i+1:]
+		if i < len(data) {
+			i++ // skip the comma; a namespace that runs to the end of the frame has none
+		}
+		data = data[i:]
 	} else {
 		header.Namespace = "/"
 	}
